@@ -21,6 +21,10 @@ theorem getElem?_setTask {s : State} {i j : Nat} {t : MTask} :
   simp only [setTask, List.getElem?_set]
   split <;> simp_all
 
+theorem getElem?_setTask_self {s : State} {i : Nat} {t : MTask} (h : i < s.tasks.length) :
+    (setTask s i t).tasks[i]? = some t := by
+  simp [getElem?_setTask, h]
+
 theorem setTask_cancelled {s : State} {i : Nat} {t : MTask} : (setTask s i t).cancelled = s.cancelled := rfl
 
 /-- per-task invariant -/
@@ -265,5 +269,394 @@ theorem step_keeps_triggered {s s' : State} {l : Label} {i : Nat} {t : MTask}
             exact ⟨t, by simp [getElem?_setTask, hik, ht], htr⟩
       · cases hs
     · cases hs
+
+/-! ### model ⊨ `Spec.C42.specSafe` on the event trace of every run -/
+
+open Lumina.Spec.C42 (Ev specSafe)
+
+theorem specSafe_append (seen es tr : List Ev) :
+    specSafe seen (es ++ tr) = (specSafe seen es && specSafe (es.reverse ++ seen) tr) := by
+  induction es generalizing seen with
+  | nil => simp [specSafe]
+  | cons e es ih =>
+    cases e <;> simp [specSafe, ih, Bool.and_assoc]
+
+/-- every task that has ended has its `ended` event among the events seen so far -/
+def SeenInv (s : State) (seen : List Ev) : Prop :=
+  ∀ (i : Nat) (t : MTask), s.tasks[i]? = some t → isEnded t.pc = true → Ev.ended i ∈ seen
+
+theorem seenInv_mono {s : State} {seen more : List Ev} (h : SeenInv s seen) : SeenInv s (more ++ seen) :=
+  fun i t ht he => List.mem_append_right _ (h i t ht he)
+
+/-- one step: its events pass `specSafe`, and the invariant holds afterwards -/
+theorem step_safe {s s' : State} {l : Label} {seen : List Ev} (hi : SeenInv s seen)
+    (hs : step s l = some s') :
+    specSafe seen (evOf s l) = true ∧ SeenInv s' ((evOf s l).reverse ++ seen) := by
+  cases l with
+  | spawn c tok =>
+    simp only [step] at hs
+    cases hs
+    refine ⟨by simp [evOf, specSafe], ?_⟩
+    intro i t ht he
+    by_cases hlt : i < s.tasks.length
+    · rw [List.getElem?_append_left hlt] at ht
+      exact List.mem_append_right _ (hi i t ht he)
+    · rw [List.getElem?_append_right (by omega)] at ht
+      have : i - s.tasks.length = 0 := by
+        have := getElem?_lt ht
+        simp at this
+        omega
+      rw [this] at ht
+      simp at ht
+      subst ht
+      simp [isEnded] at he
+  | cancel tok =>
+    simp only [step] at hs
+    cases hs
+    exact ⟨by simp [evOf, specSafe], fun i t ht he => List.mem_append_right _ (hi i t ht he)⟩
+  | begin k =>
+    simp only [step] at hs
+    split at hs
+    · rename_i tk htk
+      split at hs
+      · rename_i hpc
+        split at hs
+        · rename_i hcan
+          cases hs
+          have hev : evOf s (.begin k) = [.ended k] := by simp [evOf, htk, hpc, hcan]
+          rw [hev]
+          refine ⟨by simp [specSafe], ?_⟩
+          intro i t ht he
+          rw [getElem?_setTask] at ht
+          split at ht
+          · rename_i hik; subst hik; simp
+          · exact List.mem_append_right _ (hi i t ht he)
+        · rename_i hcan
+          cases hs
+          have hev : evOf s (.begin k) = [] := by simp [evOf, htk, hpc, hcan]
+          rw [hev]
+          refine ⟨by simp [specSafe], ?_⟩
+          intro i t ht he
+          rw [getElem?_setTask] at ht
+          split at ht
+          · split at ht
+            · cases ht; simp [isEnded] at he
+            · cases ht
+          · simpa using hi i t ht he
+      · cases hs
+    · cases hs
+  | inner k b =>
+    simp only [step] at hs
+    split at hs
+    · rename_i tk htk
+      split at hs
+      · rename_i hpc
+        cases b <;> simp only at hs <;> cases hs
+        · refine ⟨by simp [evOf, specSafe], ?_⟩
+          intro i t ht he
+          rw [getElem?_setTask] at ht
+          split at ht
+          · split at ht
+            · cases ht; simp [isEnded] at he
+            · cases ht
+          · exact List.mem_append_right _ (hi i t ht he)
+        · refine ⟨by simp [evOf, specSafe], ?_⟩
+          intro i t ht he
+          rw [getElem?_setTask] at ht
+          split at ht
+          · rename_i hik; subst hik; simp [evOf]
+          · exact List.mem_append_right _ (hi i t ht he)
+        · refine ⟨by simp [evOf, specSafe], ?_⟩
+          intro i t ht he
+          rw [getElem?_setTask] at ht
+          split at ht
+          · rename_i hik; subst hik; simp [evOf]
+          · exact List.mem_append_right _ (hi i t ht he)
+      · cases hs
+    · cases hs
+  | abort k =>
+    simp only [step] at hs
+    split at hs
+    · rename_i tk htk
+      split at hs
+      · cases hs
+        refine ⟨by simp [evOf, specSafe], ?_⟩
+        intro i t ht he
+        rw [getElem?_setTask] at ht
+        split at ht
+        · rename_i hik; subst hik; simp [evOf]
+        · exact List.mem_append_right _ (hi i t ht he)
+      · cases hs
+    · cases hs
+  | dropGuard k =>
+    simp only [step] at hs
+    split at hs
+    · rename_i tk htk
+      split at hs
+      · rename_i how hpc
+        split at hs
+        · cases hs
+        · cases hs
+          have hended : Ev.ended k ∈ seen := hi k tk htk (by simp [hpc, isEnded])
+          refine ⟨by simp [evOf, specSafe, hended], ?_⟩
+          intro i t ht he
+          rw [getElem?_setTask] at ht
+          split at ht
+          · rename_i hik
+            subst hik
+            exact List.mem_append_right _ hended
+          · exact List.mem_append_right _ (hi i t ht he)
+      · cases hs
+    · cases hs
+
+theorem trace_safe {ls : List Label} : ∀ {s s' : State} {seen tr : List Ev}, SeenInv s seen →
+    traceOf s ls = some (s', tr) → specSafe seen tr = true := by
+  induction ls with
+  | nil => intro s s' seen tr _ h; simp [traceOf] at h; rw [h.2]; simp [specSafe]
+  | cons l ls ih =>
+    intro s s' seen tr hi h
+    simp only [traceOf] at h
+    split at h
+    · cases h
+    · rename_i s1 hs1
+      split at h
+      · cases h
+      · rename_i s2 tr2 htr2
+        cases h
+        obtain ⟨h1, h2⟩ := step_safe hi hs1
+        rw [specSafe_append, h1, Bool.true_and]
+        exact ih h2 htr2
+
+/-! ### model ⊨ `Spec.C42.specLive` on the event trace of every run that ends quiescent -/
+
+open Lumina.Spec.C42 (specLive)
+
+/-- the events so far and the state agree: an `ended` event only for ended tasks, and a `joined`
+    event for every triggered handle -/
+structure LiveInv (s : State) (evs : List Ev) : Prop where
+  endedOnly : ∀ i, Ev.ended i ∈ evs → ∃ t : MTask, s.tasks[i]? = some t ∧ isEnded t.pc = true
+  joinedAll : ∀ (i : Nat) (t : MTask), s.tasks[i]? = some t → t.triggered = true → Ev.joined i ∈ evs
+
+/-- frame: a task other than the one a step touches is unchanged; the touched one is described
+    by the caller.  `P` transfers facts about old tasks to new tasks. -/
+theorem live_step {s s' : State} {l : Label} {evs : List Ev} (hi : LiveInv s evs)
+    (hs : step s l = some s') : LiveInv s' (evs ++ evOf s l) := by
+  obtain ⟨h1, h2⟩ := hi
+  cases l with
+  | spawn c tok =>
+    simp only [step] at hs
+    cases hs
+    constructor
+    · intro i hm
+      simp only [evOf, List.mem_append, List.mem_singleton, reduceCtorEq, or_false] at hm
+      obtain ⟨t, ht, he⟩ := h1 i hm
+      exact ⟨t, by rw [List.getElem?_append_left (getElem?_lt ht)]; exact ht, he⟩
+    · intro i t ht htr
+      by_cases hlt : i < s.tasks.length
+      · rw [List.getElem?_append_left hlt] at ht
+        exact List.mem_append_left _ (h2 i t ht htr)
+      · rw [List.getElem?_append_right (by omega)] at ht
+        have : i - s.tasks.length = 0 := by
+          have := getElem?_lt ht
+          simp at this
+          omega
+        rw [this] at ht
+        simp at ht
+        subst ht
+        simp at htr
+  | cancel tok =>
+    simp only [step] at hs
+    cases hs
+    constructor
+    · intro i hm
+      simp only [evOf, List.mem_append, List.mem_singleton, reduceCtorEq, or_false] at hm
+      exact h1 i hm
+    · intro i t ht htr
+      exact List.mem_append_left _ (h2 i t ht htr)
+  | begin k =>
+    simp only [step] at hs
+    split at hs
+    · rename_i tk htk
+      have hlt := getElem?_lt htk
+      split at hs
+      · rename_i hpc
+        split at hs
+        · rename_i hcan
+          cases hs
+          have hev : evOf s (.begin k) = [.ended k] := by simp [evOf, htk, hpc, hcan]
+          rw [hev]
+          constructor
+          · intro i hm
+            simp only [List.mem_append, List.mem_singleton, Ev.ended.injEq] at hm
+            by_cases hik : k = i
+            · subst hik
+              exact ⟨_, getElem?_setTask_self hlt, by simp [isEnded]⟩
+            · rcases hm with hm | hm
+              · obtain ⟨t, ht, he⟩ := h1 i hm
+                exact ⟨t, by simp [getElem?_setTask, hik, ht], he⟩
+              · exact absurd hm.symm hik
+          · intro i t ht htr
+            rw [getElem?_setTask] at ht
+            split at ht
+            · rename_i hik
+              subst hik
+              simp only [hlt, ↓reduceIte, Option.some.injEq] at ht
+              subst ht
+              exact List.mem_append_left _ (h2 k tk htk htr)
+            · exact List.mem_append_left _ (h2 i t ht htr)
+        · rename_i hcan
+          cases hs
+          have hev : evOf s (.begin k) = [] := by simp [evOf, htk, hpc, hcan]
+          rw [hev, List.append_nil]
+          constructor
+          · intro i hm
+            obtain ⟨t, ht, he⟩ := h1 i hm
+            by_cases hik : k = i
+            · subst hik
+              rw [htk] at ht
+              cases ht
+              rw [hpc] at he
+              simp [isEnded] at he
+            · exact ⟨t, by simp [getElem?_setTask, hik, ht], he⟩
+          · intro i t ht htr
+            rw [getElem?_setTask] at ht
+            split at ht
+            · rename_i hik
+              subst hik
+              simp only [hlt, ↓reduceIte, Option.some.injEq] at ht
+              subst ht
+              exact h2 k tk htk htr
+            · exact h2 i t ht htr
+      · cases hs
+    · cases hs
+  | inner k b =>
+    simp only [step] at hs
+    split at hs
+    · rename_i tk htk
+      have hlt := getElem?_lt htk
+      split at hs
+      · rename_i hpc
+        have old_not_ended : ¬ Ev.ended k ∈ evs := by
+          intro hm
+          obtain ⟨t, ht, he⟩ := h1 k hm
+          rw [htk] at ht
+          cases ht
+          rw [hpc] at he
+          simp [isEnded] at he
+        cases b <;> simp only at hs <;> cases hs
+        · -- pending
+          constructor
+          · intro i hm
+            simp only [evOf, ↓reduceIte, List.mem_append, List.mem_singleton, reduceCtorEq, or_false] at hm
+            obtain ⟨t, ht, he⟩ := h1 i hm
+            by_cases hik : k = i
+            · subst hik; exact absurd hm old_not_ended
+            · exact ⟨t, by simp [getElem?_setTask, hik, ht], he⟩
+          · intro i t ht htr
+            rw [getElem?_setTask] at ht
+            split at ht
+            · rename_i hik
+              subst hik
+              simp only [hlt, ↓reduceIte, Option.some.injEq] at ht
+              subst ht
+              exact List.mem_append_left _ (h2 k tk htk htr)
+            · exact List.mem_append_left _ (h2 i t ht htr)
+        all_goals
+          constructor
+          · intro i hm
+            simp only [evOf, reduceCtorEq, ↓reduceIte, List.mem_append, List.mem_cons, List.mem_nil_iff,
+              or_false, Ev.ended.injEq, false_or] at hm
+            by_cases hik : k = i
+            · subst hik
+              exact ⟨_, getElem?_setTask_self hlt, by simp [isEnded]⟩
+            · rcases hm with hm | hm
+              · obtain ⟨t, ht, he⟩ := h1 i hm
+                exact ⟨t, by simp [getElem?_setTask, hik, ht], he⟩
+              · exact absurd hm.symm hik
+          · intro i t ht htr
+            rw [getElem?_setTask] at ht
+            split at ht
+            · rename_i hik
+              subst hik
+              simp only [hlt, ↓reduceIte, Option.some.injEq] at ht
+              subst ht
+              exact List.mem_append_left _ (h2 k tk htk htr)
+            · exact List.mem_append_left _ (h2 i t ht htr)
+      · cases hs
+    · cases hs
+  | abort k =>
+    simp only [step] at hs
+    split at hs
+    · rename_i tk htk
+      have hlt := getElem?_lt htk
+      split at hs
+      · cases hs
+        constructor
+        · intro i hm
+          simp only [evOf, List.mem_append, List.mem_singleton, Ev.ended.injEq] at hm
+          by_cases hik : k = i
+          · subst hik
+            exact ⟨_, getElem?_setTask_self hlt, by simp [isEnded]⟩
+          · rcases hm with hm | hm
+            · obtain ⟨t, ht, he⟩ := h1 i hm
+              exact ⟨t, by simp [getElem?_setTask, hik, ht], he⟩
+            · exact absurd hm.symm hik
+        · intro i t ht htr
+          rw [getElem?_setTask] at ht
+          split at ht
+          · rename_i hik
+            subst hik
+            simp only [hlt, ↓reduceIte, Option.some.injEq] at ht
+            subst ht
+            exact List.mem_append_left _ (h2 k tk htk htr)
+          · exact List.mem_append_left _ (h2 i t ht htr)
+      · cases hs
+    · cases hs
+  | dropGuard k =>
+    simp only [step] at hs
+    split at hs
+    · rename_i tk htk
+      have hlt := getElem?_lt htk
+      split at hs
+      · rename_i how hpc
+        split at hs
+        · cases hs
+        · cases hs
+          constructor
+          · intro i hm
+            simp only [evOf, List.mem_append, List.mem_singleton, reduceCtorEq, or_false] at hm
+            obtain ⟨t, ht, he⟩ := h1 i hm
+            by_cases hik : k = i
+            · subst hik
+              rw [htk] at ht
+              cases ht
+              exact ⟨_, getElem?_setTask_self hlt, by simpa using he⟩
+            · exact ⟨t, by simp [getElem?_setTask, hik, ht], he⟩
+          · intro i t ht htr
+            rw [getElem?_setTask] at ht
+            split at ht
+            · rename_i hik
+              subst hik
+              simp [evOf]
+            · exact List.mem_append_left _ (h2 i t ht htr)
+      · cases hs
+    · cases hs
+
+theorem live_run {ls : List Label} : ∀ {s s' : State} {pre tr : List Ev}, LiveInv s pre →
+    traceOf s ls = some (s', tr) → LiveInv s' (pre ++ tr) := by
+  induction ls with
+  | nil => intro s s' pre tr hi h; simp [traceOf] at h; rw [h.2, ← h.1]; simpa using hi
+  | cons l ls ih =>
+    intro s s' pre tr hi h
+    simp only [traceOf] at h
+    split at h
+    · cases h
+    · rename_i s1 hs1
+      split at h
+      · cases h
+      · rename_i s2 tr2 htr2
+        cases h
+        have := ih (live_step hi hs1) htr2
+        simpa [List.append_assoc] using this
 
 end Lumina.Proofs.Tasks
